@@ -18,6 +18,11 @@ PORTS = [30001, 30002, 30003]
 LOGIN = "USER anonymous"
 
 
+def _accounts(a, base):
+    # several accounts without passwords: a session may change the account it is logged in with
+    return [a.User("alice", None, base_path=base), a.User("bob", None, base_path=base), a.User(base_path=base)]
+
+
 def _pasv_ok(r):
     return bool(r) and r[-1][0] in ("227", "229")
 
@@ -31,6 +36,7 @@ def run_case(case, chooser):
     # data_ports may be any iterable: a list, or a one-shot generator
     ports_arg = (p for p in list(pool)) if case.get("ports_as") == "generator" else list(pool)
     rig = Rig(chooser=chooser, n_sessions=n, tree={"f": b"abc"}, host=host, start_kwargs=case.get("start_kwargs"),
+              **({"users": _accounts} if case.get("accounts") else {}),
               server_kwargs={"data_ports": ports_arg, "wait_future_timeout": 1,
                              **({"socket_timeout": case["socket_timeout"]} if case.get("socket_timeout") else {})})
     try:
@@ -205,6 +211,8 @@ RACES = [
     ("two-sessions-race-one-port", 2, 1, [(0, "PASV!"), (1, "PASV!"), (0, "@drop"), (1, "PASV")], 0),
     ("two-sessions-drop-then-pasv", 2, 1, [(0, "PASV!"), (0, "@drop!"), (1, "PASV")], 0),
     ("pasv-then-user", 1, 1, [(0, "PASV!"), (0, "USER anonymous")], 0),
+    ("pasv-then-other-user", 1, 1, [(0, "PASV!"), (0, "USER alice")], 0, {"accounts": True}),
+    ("pasv-user-pasv", 1, 2, [(0, "PASV"), (0, "USER bob!"), (0, "PASV")], 1, {"accounts": True}),
     ("pasv-during-server-close", 1, 2, [(0, "PASV!"), (0, "@close-server")], 0),
     ("three-sessions", 3, 2, [(0, "PASV!"), (1, "PASV!"), (2, "PASV!"), (1, "@drop")], 0),
     # a client that does not wait for the reply (pipelining is just another network schedule)
@@ -264,13 +272,19 @@ def build_items(tier):
         for seq in _seqs(2, ["PASV", "EPSV", "@data", "LIST", "QUIT", "@drop"], depth - 1):
             items.append(("seq", {"name": f"seq6-p{psize}", "pool": PORTS[:psize], "n": 2, "events": seq, "host": "::1"},
                           0, [], None))
+    # several accounts: a session logs in again (as the same, as another, as an unknown account) with a listener open
+    for psize in (1, 2):
+        for seq in _seqs(2, ["PASV", "EPSV", "USER alice", "USER bob", "USER nobody", "@data", "LIST", "QUIT"], depth):
+            if any(e.startswith("USER") for _, e in seq) and any(e in ("PASV", "EPSV") for _, e in seq):
+                items.append(("seq", {"name": f"seq-accounts-p{psize}", "pool": PORTS[:psize], "n": 2, "events": seq,
+                                      "accounts": True}, 0, [], None))
     # family C: three sessions on two ports
     for seq in _seqs(3, ["PASV", "QUIT", "@drop"], 3):
         items.append(("seq", {"name": "seq3-p2", "pool": PORTS[:2], "n": 3, "events": seq}, 0, [], None))
     # family B: start-up races under schedule deviations
     bound = 1 if tier == "quick" else 3
-    for name, n, psize, events, ef in RACES:
-        case = {"name": name, "pool": PORTS[:psize], "n": n, "events": events, "explore_from": ef}
+    for name, n, psize, events, ef, *more in RACES:
+        case = {"name": name, "pool": PORTS[:psize], "n": n, "events": events, "explore_from": ef, **(more[0] if more else {})}
         items.append(("race", case, bound, kinds_q if tier == "quick" else kinds_t, 4000 if tier == "quick" else 200000))
         if name in ("pasv-then-drop", "pasv-pasv-drop", "pasv-epsv-pipelined", "pasv-then-quit", "two-sessions-race-one-port"):
             case6 = dict(case, name=name + "-ipv6", host="::1")
